@@ -49,6 +49,10 @@ pub struct Cfg {
     /// (decimal digits, zero-fraction removal, rounding) settings
     #[serde(default, skip_serializing_if = "Option::is_none")]
     pub user_unit: Option<(u8, bool, bool)>,
+    /// a user rule 'zzq {NUMBER:n}' -> n + 1 registered for English and Turkish (it matches none
+    /// of the generated lines: its mere presence must not change anything)
+    #[serde(default, skip_serializing_if = "std::ops::Not::not")]
+    pub user_rule: bool,
 }
 
 impl Cfg {
@@ -90,7 +94,28 @@ impl Cfg {
                 return Err("add_dynamic_type_item(fmt, 1) rejected".into());
             }
         }
+        if self.user_rule {
+            for lang in ["en", "tr"] {
+                if !c.add_rule(lang.to_string(), vec!["zzq {NUMBER:n}".to_string()], std::rc::Rc::new(BystanderRule)) {
+                    return Err("add_rule(bystander) rejected".into());
+                }
+            }
+        }
         Ok(c)
+    }
+}
+
+/// the rule behind `Cfg::user_rule`
+struct BystanderRule;
+impl smartcalc::RuleTrait for BystanderRule {
+    fn name(&self) -> String {
+        "bystander".to_string()
+    }
+    fn call(&self, _: &smartcalc::SmartCalcConfig, fields: &std::collections::BTreeMap<String, smartcalc::TokenType>) -> Option<smartcalc::TokenType> {
+        match fields.get("n") {
+            Some(smartcalc::TokenType::Number(n, _)) => Some(smartcalc::TokenType::Number(n + 1.0, smartcalc::NumberType::Decimal)),
+            _ => None,
+        }
     }
 }
 
